@@ -131,17 +131,17 @@ TypeOK == /\ Cardinality(Present) <= cap
 ReadYourWrite == [][ /\ (last'.op.op = "store" => val'[last'.op.k] = last'.op.v)
                      /\ (last'.op.op = "lookup" /\ last'.op.k \in Present => last'.ret = <<val[last'.op.k]>>)
                      /\ (last'.op.op \notin {"store", "setdefault", "update", "delete", "pop", "popitem", "clear"}
-                            => val' = val) ]_vars
+                            => val' = val) ]_<<vars, last>>
 EvictOnlyLFU == [][ \A k \in Present \ Present' :
                        \/ last'.op.op \in {"delete", "pop", "popitem", "clear", "update"}
                        \/ /\ last'.op.op \in {"store", "setdefault"}
                           /\ Cardinality(Present) = cap
                           /\ \A j \in Present : cnt[k] <= cnt[j]
                           /\ Cardinality(Present \ Present') = 1
-                          /\ last'.op.k \notin Present ]_vars
+                          /\ last'.op.k \notin Present ]_<<vars, last>>
 CountRule == [][ /\ (last'.op.op = "store" /\ last'.op.k \in Present => cnt'[last'.op.k] = cnt[last'.op.k] + 1)
                  /\ (last'.op.op = "store" /\ last'.op.k \notin Present => cnt'[last'.op.k] = 1)
-                 /\ (last'.op.op = "lookup" /\ last'.op.k \in Present => cnt'[last'.op.k] = cnt[last'.op.k] + 1) ]_vars
+                 /\ (last'.op.op = "lookup" /\ last'.op.k \in Present => cnt'[last'.op.k] = cnt[last'.op.k] + 1) ]_<<vars, last>>
 
 \* --- binding ----------------------------------------------------------------------------------
 Obs == [cap |-> cap, keys |-> SortedKeys, vals |-> [i \in DOMAIN SortedKeys |-> val[SortedKeys[i]]]]
